@@ -74,6 +74,12 @@
                        just before that store.  So a lookup never returns a value
                        stored under another key, a mix of two writes, or a pair that
                        was deleted before the lookup began.
+     C04_load_no_miss  the other half: from the state in which the lookup is about to load
+                       the first meta word of the chain, as long as the thread stays
+                       inside the lookup and k is visible in table tab in every state
+                       of the run, its next step is not a miss -- whatever the others do
+                       to the other slots of the chain meanwhile (the visible slot of a
+                       key does not move while the key stays visible: kpos_xstep).
    NOT a closed theorem: the final composition into "every history is
    linearizable": readers linearize at a moment inside their interval (C16 gives
    what they do, C04_vis_step what they can see), and a writer that passed its
@@ -203,6 +209,19 @@ Theorem C04_load_hit :
 Proof. exact @load_hit_proof. Qed.
 Print Assumptions C04_load_hit.
 
+Theorem C04_load_no_miss :
+  forall (K V : Type) (eqd : forall a b : K, {a = b} + {a <> b}) hash idx tag nslots seeds g sh probe nstripes minlen grow_only,
+    xhyps4 idx nstripes minlen nslots probe -> forall len0 todo sched0 sched t k lc tab s2 ls2, (0 < len0)%nat ->
+    let xr := @xrun K V eqd hash idx tag nslots seeds g sh probe nstripes minlen grow_only in
+    let s := fst (xr (xinit nslots seeds nstripes len0 todo) sched0) in
+    (* in every state of the run t is inside the lookup of k in table tab, and k is visible in that table *)
+    along eqd hash idx tag nslots seeds g sh probe nstripes minlen grow_only (stays hash idx nslots nstripes t k lc tab) s sched ->
+    (exists k' lc' tab' h, g_pc s t = PL_Meta k' lc' tab' h 0) ->
+    @xstep K V eqd hash idx tag nslots seeds g sh probe nstripes minlen grow_only (fst (xr s sched)) t = Some (s2, ls2) ->
+    ~ In (XRes t (XRVal None false)) ls2 /\ (forall cx, g_pc s2 t <> PW_Table cx).
+Proof. exact @load_no_miss_proof. Qed.
+Print Assumptions C04_load_no_miss.
+
 Theorem C04_instance :
   forall hint, xhyps4 idx_mapof nstripes_x (minlen_of_hint true hint) (Z.to_nat Params.entriesPerMapOfBucket) probe_x.
 Proof. exact x_instance_hyps4. Qed.
@@ -249,3 +268,10 @@ Example C04_load_hit_nonvacuous :
   /\ (exists h, g_pc (fst (ex_xr04h ex_s04h [1; 0; 0])) 1 = PL_Ent 7 LPlain 0 h 0 [0]).
 Proof. split; [eexists; vm_compute; reflexivity|]. split; [do 3 eexists; vm_compute; reflexivity | eexists; vm_compute; reflexivity]. Qed.
 Print Assumptions C04_load_hit_nonvacuous.
+
+(* ... and for C04_load_no_miss: in that first state the reader stands before the first meta word and key 7 is visible in slot 0 *)
+Example C04_load_no_miss_nonvacuous :
+  (exists h, g_pc ex_s04h 1 = PL_Meta 7 LPlain 0 h 0)
+  /\ kpos (fun _ _ => 5%N) (fun h len => N.to_nat h mod len) 2 (fun _ => 1) 7 0 ex_s04h 0.
+Proof. split; [eexists; vm_compute; reflexivity|]. vm_compute. split; [lia|]. split; [discriminate | eexists; reflexivity]. Qed.
+Print Assumptions C04_load_no_miss_nonvacuous.
